@@ -2,3 +2,14 @@
 #[verifier::external_body]
 pub struct Report { _p: () }
 pub type ExecResult<T> = Result<T, Report>;
+impl Report {
+    // an error value built by `eyre!`/`ensure!`: opaque
+    #[verifier::external_body]
+    pub fn adhoc() -> (r: Report) { unimplemented!() }
+}
+// `eyre::ensure!(cond, ...)`: return an ad-hoc error unless `cond` holds (closed-list rewrite `ensure_macro`)
+macro_rules! verif_ensure {
+    ($cond:expr $(, $rest:expr)* $(,)?) => {
+        if !($cond) { return Err(Report::adhoc()); }
+    };
+}
